@@ -186,9 +186,28 @@ def observe(sc):
         real = real_outcome(thunk)
         obs.append({"observable": label, "real": _show(real), "oracle": _show(want), "ok": agree(real, want)})
 
+    def warmups(e):
+        """Earlier operations on the same object graph (C09): evaluate / differentiate at other
+        points, including failing ones; errors are ignored."""
+        others = []
+        for dx in (1.0, -2.5):
+            q = {k: v + dx for k, v in point.items()}
+            others.append(q)
+        others.append({k: 0.0 for k in point})
+        for q in others:
+            for th in (lambda: e.at(make_point(q)), lambda: sm.Partial(e, x or "x").at(make_point(q)),
+                       lambda: sm.LocatedDifferential(e, make_point(q))):
+                try:
+                    th()
+                except Exception:
+                    pass
+
     if kind == "evaluate":
         e = build(tree)
         add("e.at(Point)", lambda: e.at(make_point(point)), oracle_outcome(tree, point))
+        e3 = build(tree)
+        warmups(e3)
+        add("after earlier operations at other points: e.at(Point)", lambda: e3.at(make_point(point)), oracle_outcome(tree, point))
         if "number" in sc:
             e2 = build(tree)
             names = sorted(variables(tree))
@@ -207,6 +226,12 @@ def observe(sc):
         add("Differential(e).component(x).at(p)", lambda: sm.Differential(mk()).component(x).at(P()), want)
         if len(variables(tree)) <= 1 and (not variables(tree) or x in variables(tree)):
             add("Derivative(e).at(p)", lambda: sm.Derivative(mk()).at(P()), want)
+        shared = mk()
+        warmups(shared)
+        add("after earlier operations at other points: Partial(e,x).at(p)", lambda: sm.Partial(shared, x).at(P()), want)
+        add("after earlier operations at other points: LocatedDifferential(e,p).component(x)",
+            lambda: sm.LocatedDifferential(shared, P()).component(x), want)
+        add("after earlier operations at other points: e.at(p)", lambda: shared.at(P()), oracle_outcome(tree, point))
         if sc.get("early"):
             add("Partial(e,x,early).at(p)", lambda: sm.Partial(mk(), x, compute_early=True).at(P()), want)
             add("Differential(e,early).component_at(x,p)", lambda: sm.Differential(mk(), compute_early=True).component_at(x, P()), want)
@@ -282,6 +307,16 @@ def main(path):
         return 0
     if sc.get("kind") == "order_battery":
         return order_battery()
+    if sc.get("kind") == "history_battery":
+        import subprocess
+        here = os.path.dirname(os.path.abspath(__file__))
+        p = subprocess.run([sys.executable, os.path.join(here, "history_battery.py")], capture_output=True, text=True)
+        print(p.stdout + p.stderr[-500:])
+        if p.returncode == 1:
+            print("RESULT: violation reproduced on the real code (an answer depends on earlier operations)")
+            return 1
+        print("RESULT: no-failing-input-found")
+        return 0
     obs = observe(sc)
     bad = [o for o in obs if not o["ok"]]
     for o in obs:
